@@ -98,6 +98,35 @@ def fold(t, ctx, env=None, depth=0):
             out.update(v[0] if isinstance(v, tuple) and len(v) == 1 else v)
             return out
         raise NotConstant("update %s" % how)
+    if op == "param":
+        k = ("param", t.a[0])
+        if k in env:
+            return env[k]
+        raise NotConstant("parameter %s" % t.a[0])
+    if op == "cmp":
+        o, l, r = t.a
+        lv, rv = fold(l, ctx, env, depth + 1), fold(r, ctx, env, depth + 1)
+        if isinstance(lv, NpArray) or isinstance(rv, NpArray):
+            raise NotConstant("array comparison")
+        if o == "in":
+            return lv in rv
+        if o == "notin":
+            return lv not in rv
+        if o == "==":
+            return lv == rv
+        if o == "!=":
+            return lv != rv
+        if o == "<":
+            return lv < rv
+        if o == "<=":
+            return lv <= rv
+        if o == "is":
+            return lv is rv or (lv is None and rv is None)
+        if o == "isnot":
+            return not (lv is rv or (lv is None and rv is None))
+        raise NotConstant("comparison " + o)
+    if op == "ite":
+        return fold(t.a[1], ctx, env, depth + 1) if fold(t.a[0], ctx, env, depth + 1) else fold(t.a[2], ctx, env, depth + 1)
     if op == "iter":
         key = t.id
         if key in env:
@@ -135,11 +164,19 @@ def fold(t, ctx, env=None, depth=0):
         name = tm.callee_name(t.a[0])
         args, kw = t.a[1], t.a[2]
         if t.a[0].op == "func" and not kw:
-            # inline a parameterless table builder
+            # inline a table builder: a helper with one return whose arguments fold
             s = ctx.S.get(name)
-            if len(s.returns) == 1 and not s.func.params and not args:
-                return fold(s.returns[0].term, ctx, env, depth + 1)
+            if len(s.returns) == 1 and len(args) == len(s.func.params) and not s.func.kwarg and not s.func.vararg:
+                e2 = {"__module__": name.split(".")[0]}
+                for pn, a_ in zip(s.func.params, args):
+                    e2[("param", pn)] = fold(a_, ctx, env, depth + 1)
+                return fold(s.returns[0].term, ctx, e2, depth + 1)
             raise NotConstant("call of " + name)
+        if name in ("builtins.int", "builtins.float", "builtins.bool", "builtins.abs") and len(args) == 1 and not kw:
+            v = fold(args[0], ctx, env, depth + 1)
+            if isinstance(v, NpArray):
+                raise NotConstant("array conversion")
+            return {"builtins.int": int, "builtins.float": float, "builtins.bool": bool, "builtins.abs": abs}[name](v)
         if name in (".items", ".keys", ".values") and len(args) == 1 and not kw:
             d = fold(args[0], ctx, env, depth + 1)
             if isinstance(d, dict):
